@@ -69,3 +69,8 @@ claim("C18", "other", "channel typestate rules + exhaustive exploration of the c
       "Decides: no gkvlite lock can be held at any visitor/comparator call or file sink and no mutex is re-acquired (the precondition of re-entrant use, L3/L2); the iterator's channel protocol (who may send/receive/close, close-once under the closed flag, ,ok on every receive with the closed outcome ending the conversation, deferred close-then-drain epilogue installed first, producer started with go, unbuffered channels); the producer's pin is released (P1); and I5 — the consumer (every sequence of Next/Close) and the producer goroutine are interpreted abstractly straight from their SSA and their finite product graph is explored completely: no deadlock, no send on a closed channel, no double close, producer always exits after Close or after Next answered false. The one modelled (not extracted) part is the visit machinery between the producer and its item callback (called any number of times, never after it returned false — C06 V2). Run-time goroutine exit under a real scheduler and abandonment without Close() are not decided.",
       "Trusted: go/ssa; Go channel semantics as encoded in the interpreter (rendezvous, closed receive yields !ok, send/close on closed panics); C06 V2 for the visit machinery.",
       "DESIGN.md §4 C18")
+
+claim("C06", "other", "finite sign-domain evaluation of the choice functions + typestate path exploration of the recursive visitor + wrapper transparency checks",
+      "Decides the structural clauses of range visits: the delivering sets of the two choice functions over the three signs of compare(target,key) and their near/far subtrees (V1), the in-order skeleton with early stop on every path of the recursive visitor (V2), the delivered item read with the caller's value mode from the node being visited (V3), depth = recursion depth (V4), wrapper/iterator transparency in the right direction (V5) and the transparent order guard (V6). Together with the search-tree order of C13 this gives 'exactly the requested range, in order'; the delivered sequence as data over all contents and cache states is not decided.",
+      "Trusted: go/ssa; comparator is a strict weak order; C13 for tree order.",
+      "DESIGN.md §4 C06")
